@@ -6,6 +6,7 @@ import Distill.Props.AbsURLProps
 import Distill.Props.RenderProps
 import Distill.Proofs.Render
 import Distill.Proofs.Srcset
+import Distill.Proofs.SrcsetId
 import Distill.Gen.Tables
 import Distill.Gen.Funcs
 namespace Distill.C06
@@ -99,6 +100,17 @@ theorem srcset_resolved_read_back (abs : List Char → List Char) (cs : List Src
     (habs : ∀ c ∈ cs, Srcset.WFUrl (abs c.url)) :
     Srcset.urls (Srcset.rewrite abs (Srcset.render cs)) = cs.map (fun c => abs c.url) :=
   Srcset.urls_rewrite_render abs cs h hcomma habs
+
+/-- **Nothing is lost or moved, for EVERY srcset value**: the matches and the characters between them
+spell the value, so with a resolver that changes nothing `makeSrcSetAbsolute` writes back the value
+it read — whatever it looks like (token soup included).  What the function changes is confined to
+the URLs it hands to the resolver. -/
+theorem srcset_nothing_lost (s : List Char) : Srcset.rewrite id s = s := Srcset.rewrite_id s
+
+/-- … and every match is a stretch of the value: the pieces `FindAll` yields spell it -/
+theorem srcset_pieces_spell_value (s : List Char) :
+    (Srcset.pieces (s.length + 1) s).flatMap Srcset.Piece.text = s :=
+  Srcset.pieces_concat (s.length + 1) s (Nat.lt_succ_self _)
 
 /-! non-vacuity: a candidate list with two descriptors, an exponent density and a bare URL meets the
 premises; and the model on the written-out value -/
